@@ -562,6 +562,12 @@ func drillIntoField(cursor any, fieldName string) (any, error) {
 					}
 				}
 			}
+			// the fields of an embedded struct are fields of the object too (Header embeds Parameter)
+			if f := val.Type().Field(i); f.Anonymous && f.Type.Kind() == reflect.Struct && f.IsExported() {
+				if sub, err := drillIntoField(val.Field(i).Interface(), fieldName); err == nil {
+					return sub, nil
+				}
+			}
 		}
 
 		// if cursor is a "ref wrapper" struct (e.g. RequestBodyRef),
